@@ -86,6 +86,16 @@ fn gen_doc(ch: &mut Ch, out: &mut CaseOut) -> DigDoc {
                 sigs.push(Sig { name: format!("{}_out", i.name), bits: i.bits, kind: Kind::Out });
             }
         }
+        2 => {
+            // an In / Clock pin labelled <input>_out next to the input
+            if let Some(i) = sigs.iter().find(|s| matches!(s.kind, Kind::In(_))).cloned() {
+                out.class("input-pin-labelled-x_out-next-to-input-x");
+                let kind = if ch.chance(1, 3) { PinKind::Clock } else { PinKind::In };
+                elements.push(Element::Pin(Pin { kind, label: Some(format!("{}_out", i.name)), bits: Some(2), default: None }));
+                // the tests use it as an ordinary input column
+                sigs.push(Sig { name: format!("{}_out", i.name), bits: 2, kind: Kind::In(InVal::Val(0)) });
+            }
+        }
         1 => {
             // a pin labelled <output>_out
             if let Some(o) = sigs.iter().find(|s| matches!(s.kind, Kind::Out)).cloned() {
@@ -343,7 +353,7 @@ impl Property for C16 {
         "C16"
     }
     fn rule(&self) -> &'static str {
-        "profile `dig`: generated circuit descriptions - pins (In/Clock/Out, labelled or not, Bits or none, InDefault value / z=\"true\" / none), labelled non-pin elements (Probe, And, Tunnel, Text, ...), 0-3 tests (label or none, duplicate labels, XML-special characters; source = generated program fitted to the pins with random layout, or free text behind a legal header, or headers naming nothing / X_out with no X / <output>_out, or no header line) - rendered in Digital's XStream shape with shuffled attribute entries and XML escaping; label patterns around _out (Out pin labelled C_out next to In pin C); duplicate pin labels; plus 1-3 corruptions (character / line / tag deletion, truncation, renamed keys, emptied text nodes, junk) of rendered documents and of the repository's five fixtures. Oracle: never a panic; uncorrupted documents with legal headers must load; when an uncorrupted document loads, signals == exactly the labelled pins as a multiset (kind, width, default), bidirectional only under the stated condition, tests == (label, source) in document order; for every loaded file load_test(i) == parse(source i) + with_signals(file.signals) (equal TestCase, or same error kind and message), load_test_by_name == load_test(first index with that label), out-of-range index and unknown name are errors. Non-trivial: >= 3 labelled pins and >= 1 test, or an _out pattern, or a corruption that still loads; distinct by document text."
+        "profile `dig`: generated circuit descriptions - pins (In/Clock/Out, labelled or not, Bits or none, InDefault value / z=\"true\" / none), labelled non-pin elements (Probe, And, Tunnel, Text, ...), 0-3 tests (label or none, duplicate labels, XML-special characters; source = generated program fitted to the pins with random layout, or free text behind a legal header, or headers naming nothing / X_out with no X / <output>_out, or no header line) - rendered in Digital's XStream shape with shuffled attribute entries and XML escaping; label patterns around _out (an Out pin, or an In / Clock pin, labelled C_out next to In pin C); duplicate pin labels; plus 1-3 corruptions (character / line / tag deletion, truncation, renamed keys, emptied text nodes, junk) of rendered documents and of the repository's five fixtures. Oracle: never a panic; uncorrupted documents with legal headers must load; when an uncorrupted document loads, signals == exactly the labelled pins as a multiset (kind, width, default), bidirectional only under the stated condition, tests == (label, source) in document order; for every loaded file load_test(i) == parse(source i) + with_signals(file.signals) (equal TestCase, or same error kind and message), load_test_by_name == load_test(first index with that label), out-of-range index and unknown name are errors. Non-trivial: >= 3 labelled pins and >= 1 test, or an _out pattern, or a corruption that still loads; distinct by document text."
     }
     fn cases(&self, tier: Tier) -> u64 {
         match tier {
@@ -355,7 +365,7 @@ impl Property for C16 {
         [500, 60, 40]
     }
     fn required_classes(&self) -> Vec<&'static str> {
-        vec!["uncorrupted", "corrupted-generated", "corrupted-fixture", "load:ok", "load:err", "bidirectional-inferred", "pin-labelled-x_out-next-to-input-x", "header-names-outside-the-circuit", "corruption-still-loads", "strict-document", "duplicate-test-label"]
+        vec!["uncorrupted", "corrupted-generated", "corrupted-fixture", "load:ok", "load:err", "bidirectional-inferred", "pin-labelled-x_out-next-to-input-x", "input-pin-labelled-x_out-next-to-input-x", "header-names-outside-the-circuit", "corruption-still-loads", "strict-document", "duplicate-test-label"]
     }
     fn check_raw(&self, _kind: &str, data: &[u8]) -> Option<(String, String)> {
         crate::fuzzglue::dig_bytes_kv(data)
